@@ -164,6 +164,18 @@ fn is_piece(expr: &Expression) -> bool {
     }
 }
 
+/// Whether a chain of pieces contains a binding.
+///
+/// The parser builds `piece + piece + ...` only for a value that mixes text and bindings, so
+/// a chain of string literals alone (`{{ 'p' + 's' }}`) is an expression the user wrote.
+fn has_binding_piece(expr: &Expression) -> bool {
+    match expr {
+        Expression::ToStringWithoutUndefined { .. } => true,
+        Expression::Plus { left, right, .. } => has_binding_piece(left) || has_binding_piece(right),
+        _ => false,
+    }
+}
+
 /// Whether the printed form of a piece of a text value starts with `{`.
 fn expr_starts_with_brace(expr: &Expression) -> bool {
     match expr {
@@ -821,6 +833,15 @@ impl Stringify for Value {
                     Ok(())
                 }
                 let brace_follows = stringifier.brace_follows;
+                if let Expression::Plus { .. } = &**expression {
+                    if is_piece(expression) && !has_binding_piece(expression) {
+                        // string literals concatenated by the user: not text pieces
+                        stringifier.write_token("{{", None, &double_brace_location.0)?;
+                        expression.stringify_write(stringifier)?;
+                        stringifier.write_token("}}", None, &double_brace_location.1)?;
+                        return Ok(());
+                    }
+                }
                 split_expression(
                     &expression,
                     stringifier,
